@@ -193,10 +193,16 @@ def _gen_dtlsrec():
     drop = re.search(r"Ok\(Some\(record\)\) => \{ if record\.epoch == (\d+) && "
                      r"(ctx\.session_keys\.is_some\(\)|\(record\.content_type == ContentType::ApplicationData \|\| ctx\.session_keys\.is_some\(\)\)) \{ "
                      r"let handshaking = matches!\(\*self\.state\.lock\(\), DtlsState::Handshaking\); "
-                     r"if !handshaking \|\| matches!\( record\.content_type, ((?:ContentType::\w+(?: \| )?)+) \) \{ continue; \} \} "
+                     r"if !handshaking \|\| (matches!\( record\.content_type, (?:ContentType::\w+(?: \| )?)+ \)|record\.content_type != ContentType::\w+) \{ continue; \} \} "
                      r"let payload = match self\.try_decrypt_record", hp)
     if drop:
-        tys = re.findall(r"ContentType::(\w+)", drop.group(3))
+        named = re.findall(r"ContentType::(\w+)", drop.group(3))
+        if drop.group(3).startswith("matches!"):
+            tys = named
+        else:   # `!= ContentType::X`: every content type except X
+            if named[0] not in codes:
+                raise Untranslatable("discard rule names an unknown content type %s" % named[0])
+            tys = [v for v, _ in vs if v != named[0]]
         m.raw("Definition rx_drop_epoch0 : bool := true.\nDefinition RX_DROP_EPOCH : Z := %s.\n"
               "Definition rx_drop_plain_app_without_keys : bool := %s.\n"
               "Definition rx_drop_types_handshaking : list ContentType := [%s]." % (
@@ -246,12 +252,27 @@ def _gen_dtlsrec():
     m.raw("Definition ALERT_CLOSE_BYTES : list Z := [%s; %s].\nDefinition alert_seq_from_write_seq : bool := %s.\n"
           "Definition ALERT_SEQ_INCR : Z := %s.\nDefinition ALERT_SEQ_BITS : Z := %s." % (cl.group(1), cl.group(2), flag, incr, bits),
           "fn handshake (close_notify path: alert bytes, sequence-number source)", MOD)
-    # Connected: write_epoch / write_seq initialised from the handshake counters (both roles)
+    # Connected: write_epoch / write_seq initialised from the handshake counters (both roles), and in which order
+    # relative to publishing the Connected state that send() tests
     _, _, hf = find_fn(mod, "handle_finished", "DtlsInner")
-    n = len(re.findall(r"self\.write_epoch\.store\(ctx\.epoch, Ordering::SeqCst\); self\.write_seq\.store\(ctx\.sequence_number, Ordering::SeqCst\);", norm(hf)))
-    if n != 2:
-        raise Untranslatable("handle_finished: expected write_epoch/write_seq initialisation in both roles, found %d" % n)
-    m.raw("Definition WRITE_SEQ_INIT_FROM_HANDSHAKE_COUNTER : bool := true.", "fn handle_finished (write_epoch / write_seq stores, both roles)", MOD)
+    hf = norm(hf)
+    stores = r"self\.write_epoch\.store\(ctx\.epoch, Ordering::SeqCst\); self\.write_seq\.store\(ctx\.sequence_number, Ordering::SeqCst\);"
+    publish = r"\*self\.state\.lock\(\) = state\.clone\(\);"
+    after = len(re.findall(stores + " " + publish + r" let _ = self\.state_tx\.send\(state\);", hf))
+    before = len(re.findall(publish + " " + stores + r" let _ = self\.state_tx\.send\(state\);", hf))
+    if (after, before) == (2, 0):
+        order = "true"
+    elif (after, before) == (0, 2):
+        order = "false"
+    else:
+        raise Untranslatable("handle_finished: write_epoch/write_seq stores vs. Connected publication: %d blocks publish last, %d publish first (expected 2 of one kind)" % (after, before))
+    if len(re.findall(r"DtlsState::Connected\(", hf)) != 2 or len(re.findall(r"write_seq\.store", hf)) != 2:
+        raise Untranslatable("handle_finished: expected exactly two Connected publications / write_seq stores")
+    need(r"^\{ let crypto = \{ let state_guard = self\.inner\.state\.lock\(\); if let DtlsState::Connected\(crypto, _\) = &\*state_guard \{ crypto\.clone\(\) \} "
+         r"else \{ return Err\(anyhow::anyhow!\(\"DTLS not connected\"\)\); \} \};", snd, "DtlsTransport::send state test")
+    m.raw("Definition WRITE_SEQ_INIT_FROM_HANDSHAKE_COUNTER : bool := true.\n"
+          "Definition connected_published_after_stores : bool := %s." % order,
+          "fn handle_finished (write_epoch / write_seq stores; order relative to `state = Connected`) + fn send (state test)", MOD)
     return m
 
 
